@@ -205,17 +205,25 @@ func (vc *VC) wfFact(name string, arr Term, s Sort, top Term) Term {
 		}
 		return ""
 	}
+	// only objects that exist in this heap: the slot of an object allocated later (e.g. by a callee whose result is
+	// fresh) is read through the same array, and nothing is known about it yet
+	guard := func(f Term) Term {
+		if parts[0] == "Int" {
+			return implies(app("<=", "wx", top), f)
+		}
+		return f
+	}
 	if inner := arraySorts(parts[1]); inner != nil {
 		v := app("select", app("select", arr, "wx"), "wy")
 		if f := valFact(v, inner[1]); f != "" {
 			vc.d.declSort(inner[0])
-			return fmt.Sprintf("(forall ((wx %s) (wy %s)) (! %s :pattern (%s)))", parts[0], inner[0], f, v)
+			return fmt.Sprintf("(forall ((wx %s) (wy %s)) (! %s :pattern (%s)))", parts[0], inner[0], guard(f), v)
 		}
 		return ""
 	}
 	v := app("select", arr, "wx")
 	if f := valFact(v, parts[1]); f != "" {
-		return fmt.Sprintf("(forall ((wx %s)) (! %s :pattern (%s)))", parts[0], f, v)
+		return fmt.Sprintf("(forall ((wx %s)) (! %s :pattern (%s)))", parts[0], guard(f), v)
 	}
 	return ""
 }
@@ -499,7 +507,7 @@ func (e *Env) lvals(x ast.Expr) []LV {
 				return []LV{{Arr: mapDomArr(ks, vs), Sort: mapDomSort(ks), Idx: m.T}, {Arr: mapValArr(ks, vs), Sort: mapValSort(ks, vs), Idx: m.T}}
 			}
 			if fr, ok := vc.specs.Frames[id.Name]; ok {
-				fe := &Env{vc: vc, pkg: fr.Pkg, vars: map[string]TV{}, heap: e.heap, old: e.old, tparams: e.tparams, facts: e.facts, fnCtx: e.fnCtx}
+				fe := &Env{vc: vc, pkg: fr.Pkg, vars: map[string]TV{}, heap: e.heap, old: e.old, tparams: e.tparams, facts: e.facts, qfacts: e.qfacts, fnCtx: e.fnCtx}
 				for i, pn := range fr.Params {
 					if i < len(x.Args) {
 						fe.vars[pn] = e.tr(x.Args[i])
@@ -518,7 +526,7 @@ func (e *Env) lvals(x ast.Expr) []LV {
 				return out
 			}
 			if sf, ok := vc.specs.SpecFuncs[id.Name]; ok && !sf.Opaque {
-				se := &Env{vc: vc, pkg: sf.Pkg, vars: map[string]TV{}, heap: e.heap, old: e.old, tparams: e.tparams, facts: e.facts}
+				se := &Env{vc: vc, pkg: sf.Pkg, vars: map[string]TV{}, heap: e.heap, old: e.old, tparams: e.tparams, facts: e.facts, qfacts: e.qfacts}
 				for i, p := range sf.Params {
 					se.vars[p.Name] = e.tr(x.Args[i])
 				}
@@ -537,7 +545,7 @@ func (e *Env) fieldLV(base TV, name string, n ast.Node) []LV {
 		ck := typeKey(base.S.Go)
 		for _, b := range vc.specs.Bindings {
 			if b.Concrete == ck && b.Field == name {
-				be := &Env{vc: vc, pkg: b.Pkg, vars: map[string]TV{b.RecvName: base}, heap: e.heap, old: e.old, tparams: e.typeArgEnv(named), facts: e.facts}
+				be := &Env{vc: vc, pkg: b.Pkg, vars: map[string]TV{b.RecvName: base}, heap: e.heap, old: e.old, tparams: e.typeArgEnv(named), facts: e.facts, qfacts: e.qfacts}
 				var out []LV
 				if len(b.Footprint) > 0 {
 					for _, fe := range b.Footprint {
@@ -562,7 +570,7 @@ func (e *Env) fieldLV(base TV, name string, n ast.Node) []LV {
 					}
 					if b.Iface == okey && b.Field == name {
 						ct := e.concreteTypeOf(b)
-						be := &Env{vc: vc, pkg: b.Pkg, vars: map[string]TV{b.RecvName: {T: app("pl", base.T), S: goSType(ct)}}, heap: e.heap, old: e.old, facts: e.facts}
+						be := &Env{vc: vc, pkg: b.Pkg, vars: map[string]TV{b.RecvName: {T: app("pl", base.T), S: goSType(ct)}}, heap: e.heap, old: e.old, facts: e.facts, qfacts: e.qfacts}
 						if len(b.Footprint) > 0 {
 							for _, fe := range b.Footprint {
 								out = append(out, be.lvals(fe)...)
